@@ -258,6 +258,288 @@ Proof.
       apply reader_stop_moves with (w := w); auto. intros E. rewrite E in Hp. discriminate.
 Qed.
 
+
+(* ---------------------------------------------------------------------------------------------- *)
+(* termination measure: a natural number that strictly decreases with every step that is not a wait or a spurious
+   wake-up, and never increases.  With no_deadlock: under weak fairness every run reaches the final state, and
+   the number of non-wait steps of any run is at most mu (init P). *)
+
+Definition pc_w (p : wpc) : nat := match p with PRun => 2 | PStep => 1 | PBlocked => 1 | PExit => 0 end.
+Definition rm (ws : wstate) : nat := 2 * (L + n - 1 - wseq ws) + pc_w (wpcs ws).
+Definition wm (ws : wstate) : nat := 2 * (L - wseq ws) + pc_w (wpcs ws).
+Fixpoint sumf (f : nat -> nat) (k : nat) : nat := match k with 0 => 0 | S k' => sumf f k' + f k' end.
+Definition cm (st : state) : nat :=
+  match cpc st with
+  | CNext => (L + n - next_k st) * (R + W + 3) + 3
+  | CWork => (L + n - next_k st) * (R + W + 3) + length (rlist st) + length (wlist st) + 4
+  | CStopping => 2
+  | CJoining => 1
+  | CEnd => 0
+  end.
+Definition mu (st : state) : nat :=
+  cm st + sumf (fun w => rm (rget st w)) R + sumf (fun w => wm (wget st w)) W.
+
+Lemma sumf_ext : forall f g k, (forall w, w < k -> f w = g w) -> sumf f k = sumf g k.
+Proof. intros f g k. induction k; simpl; intros H; [reflexivity|]. rewrite IHk by (intros; apply H; lia). rewrite H by lia. reflexivity. Qed.
+
+Lemma sumf_upd : forall f g k w, w < k -> (forall w', w' < k -> w' <> w -> g w' = f w') ->
+  sumf g k + f w = sumf f k + g w.
+Proof.
+  intros f g k w. induction k; intros Hw H; [lia|]. simpl.
+  destruct (Nat.eq_dec w k) as [->|N].
+  - rewrite (sumf_ext g f k) by (intros; apply H; lia). lia.
+  - rewrite (H k) by lia. assert (sumf g k + f w = sumf f k + g w) by (apply IHk; [lia|intros; apply H; lia]). lia.
+Qed.
+
+Lemma rm_unblock : forall ws, rm (unblock ws) = rm ws.
+Proof. intros [i [] s]; reflexivity. Qed.
+Lemma wm_unblock : forall ws, wm (unblock ws) = wm ws.
+Proof. intros [i [] s]; reflexivity. Qed.
+
+Lemma mu_upd_reader : forall st w ws' t c, w < R ->
+  mu (upd_reader st (set wdflt (rd st) w ws') t c) + rm (rget st w) = mu st + rm ws'.
+Proof.
+  intros st w ws' t c Hw. unfold mu.
+  assert (E : sumf (fun w0 => rm (rget (upd_reader st (set wdflt (rd st) w ws') t c) w0)) R + rm (rget st w)
+              = sumf (fun w0 => rm (rget st w0)) R + rm ws').
+  { rewrite (sumf_upd (fun w0 => rm (rget st w0)) (fun w0 => rm (rget (upd_reader st (set wdflt (rd st) w ws') t c) w0)) R w Hw).
+    - rewrite rget_upd_eq. reflexivity.
+    - intros w' _ N. unfold rget, upd_reader; simpl. rewrite get_set_neq by auto. reflexivity. }
+  change (cm (upd_reader st (set wdflt (rd st) w ws') t c)) with (cm st).
+  change (sumf (fun w0 => wm (wget (upd_reader st (set wdflt (rd st) w ws') t c) w0)) W) with (sumf (fun w0 => wm (wget st w0)) W).
+  lia.
+Qed.
+
+Lemma mu_upd_writer : forall st w ws' t c g, w < W ->
+  mu (upd_writer st (set wdflt (wr st) w ws') t c g) + wm (wget st w) = mu st + wm ws'.
+Proof.
+  intros st w ws' t c g Hw. unfold mu.
+  assert (E : sumf (fun w0 => wm (wget (upd_writer st (set wdflt (wr st) w ws') t c g) w0)) W + wm (wget st w)
+              = sumf (fun w0 => wm (wget st w0)) W + wm ws').
+  { rewrite (sumf_upd (fun w0 => wm (wget st w0)) (fun w0 => wm (wget (upd_writer st (set wdflt (wr st) w ws') t c g) w0)) W w Hw).
+    - rewrite wget_upd_eq. reflexivity.
+    - intros w' _ N. unfold wget, upd_writer; simpl. rewrite get_set_neq by auto. reflexivity. }
+  change (cm (upd_writer st (set wdflt (wr st) w ws') t c g)) with (cm st).
+  change (sumf (fun w0 => rm (rget (upd_writer st (set wdflt (wr st) w ws') t c g) w0)) R) with (sumf (fun w0 => rm (rget st w0)) R).
+  lia.
+Qed.
+
+Lemma mu_upd_caller : forall st c' cw rl wl b,
+  mu (upd_caller st c' cw rl wl b) + cm st = mu st + cm (upd_caller st c' cw rl wl b).
+Proof. intros. unfold mu. simpl. change (rget (upd_caller st c' cw rl wl b)) with (rget st). change (wget (upd_caller st c' cw rl wl b)) with (wget st). lia. Qed.
+
+Ltac grd H G :=
+  match type of H with
+  | (if negb ?b then None else _) = Some _ => destruct b eqn:G; [cbn [negb] in H|discriminate H]
+  | (if ?b then None else _) = Some _ => destruct b eqn:G; [discriminate H|]
+  end.
+
+Lemma ML_bound : forall st, Inv st -> M st <= L.
+Proof. intros st I. pose proof (ri_caller P st I) as Ic. pose proof (co_hM P st Ic). pose proof (co_hlen P st Ic). lia. Qed.
+
+Theorem mu_step : forall st l st', Inv st -> step P st l = Some st' ->
+  mu st' <= mu st /\ (is_progress l = true -> mu st' < mu st).
+Proof.
+  intros st l st' I H. pose proof (ri_caller P st I) as Ic. pose proof (co_Kmax P st Ic) as HKm.
+  pose proof (ML_bound st I) as HML.
+  destruct l; unfold step in H; cbv zeta in H.
+  - (* RTake *)
+    grd H Gw. grd H Gpc. grd H Gd. grd H Gn. apply Nat.ltb_lt in Gw. apply is_pc_eq in Gpc. apply Nat.eqb_neq in Gn.
+    destruct (ri_readers P st I w Gw).
+    assert (Hj : wseq (rget st w) + 2 <= next_k st).
+    { destruct (Nat.eq_dec (wseq (rget st w) + 1) (next_k st)) as [E|E]; [|lia]. exfalso. apply Gn.
+      rewrite ro_idx, succ_mod, E by lia. symmetry. apply (co_r P st Ic). }
+    destruct (get2 (rtask st) _ w); try discriminate; inversion H; subst st'; clear H;
+      match goal with |- context [upd_reader st (set wdflt (rd st) w ?ws') ?t ?c] =>
+        pose proof (mu_upd_reader st w ws' t c Gw) as E end;
+      unfold rm in E; rewrite Gpc in E; simpl in E; (split; [|intros _]; lia).
+  - (* REnd *)
+    grd H Gw. grd H Gpc. apply Nat.ltb_lt in Gw. apply is_pc_eq in Gpc.
+    destruct (get2 (rtask st) _ w); try discriminate; inversion H; subst st'; clear H;
+      match goal with |- context [upd_reader st (set wdflt (rd st) w ?ws') ?t ?c] =>
+        pose proof (mu_upd_reader st w ws' t c Gw) as E end;
+      unfold rm in E; rewrite Gpc in E; simpl in E; (split; [|intros _]; lia).
+  - (* RWait *)
+    grd H Gw. grd H Gpc. grd H Gd. grd H Gn. apply Nat.ltb_lt in Gw. apply is_pc_eq in Gpc.
+    inversion H; subst st'; clear H.
+    match goal with |- context [upd_reader st (set wdflt (rd st) w ?ws') ?t ?c] =>
+      pose proof (mu_upd_reader st w ws' t c Gw) as E end.
+    unfold rm in E; rewrite Gpc in E; simpl in E. split; [lia|discriminate].
+  - (* RExit *)
+    grd H Gw. grd H Gpc. grd H Gd. apply Nat.ltb_lt in Gw. apply is_pc_eq in Gpc.
+    inversion H; subst st'; clear H.
+    match goal with |- context [upd_reader st (set wdflt (rd st) w ?ws') ?t ?c] =>
+      pose proof (mu_upd_reader st w ws' t c Gw) as E end.
+    unfold rm in E; rewrite Gpc in E; simpl in E. split; [|intros _]; lia.
+  - (* RSpur *)
+    grd H Gw. grd H Gpc. apply Nat.ltb_lt in Gw. apply is_pc_eq in Gpc.
+    inversion H; subst st'; clear H.
+    match goal with |- context [upd_reader st (set wdflt (rd st) w ?ws') ?t ?c] =>
+      pose proof (mu_upd_reader st w ws' t c Gw) as E end.
+    unfold rm in E; rewrite Gpc in E; simpl in E. split; [lia|discriminate].
+  - (* WTake *)
+    grd H Gw. grd H Gpc. grd H Gn. apply Nat.ltb_lt in Gw. apply is_pc_eq in Gpc. apply Nat.eqb_neq in Gn.
+    destruct (ri_writers P st I w Gw).
+    assert (Hv : wseq (wget st w) + 1 <= M st).
+    { destruct (Nat.eq_dec (wseq (wget st w)) (M st)) as [E|E]; [|lia]. exfalso. apply Gn.
+      rewrite wo_idx, (widx_next P Hn HR), E. symmetry. apply (co_w P st Ic). }
+    destruct (get2 (wtask st) _ w); try discriminate; inversion H; subst st'; clear H;
+      match goal with |- context [upd_writer st (set wdflt (wr st) w ?ws') ?t ?c ?g] =>
+        pose proof (mu_upd_writer st w ws' t c g Gw) as E end;
+      unfold wm in E; rewrite Gpc in E; simpl in E; (split; [|intros _]; lia).
+  - (* WEnd *)
+    grd H Gw. grd H Gpc. apply Nat.ltb_lt in Gw. apply is_pc_eq in Gpc.
+    destruct (get2 (wtask st) _ w); try discriminate; inversion H; subst st'; clear H;
+      match goal with |- context [upd_writer st (set wdflt (wr st) w ?ws') ?t ?c ?g] =>
+        pose proof (mu_upd_writer st w ws' t c g Gw) as E end;
+      unfold wm in E; rewrite Gpc in E; simpl in E; (split; [|intros _]; lia).
+  - (* WWait *)
+    grd H Gw. grd H Gpc. grd H Gn. grd H Gd. apply Nat.ltb_lt in Gw. apply is_pc_eq in Gpc.
+    inversion H; subst st'; clear H.
+    match goal with |- context [upd_writer st (set wdflt (wr st) w ?ws') ?t ?c ?g] =>
+      pose proof (mu_upd_writer st w ws' t c g Gw) as E end.
+    unfold wm in E; rewrite Gpc in E; simpl in E. split; [lia|discriminate].
+  - (* WExit *)
+    grd H Gw. grd H Gpc. grd H Gn. grd H Gd. apply Nat.ltb_lt in Gw. apply is_pc_eq in Gpc.
+    inversion H; subst st'; clear H.
+    match goal with |- context [upd_writer st (set wdflt (wr st) w ?ws') ?t ?c ?g] =>
+      pose proof (mu_upd_writer st w ws' t c g Gw) as E end.
+    unfold wm in E; rewrite Gpc in E; simpl in E. split; [|intros _]; lia.
+  - (* WSpur *)
+    grd H Gw. grd H Gpc. apply Nat.ltb_lt in Gw. apply is_pc_eq in Gpc.
+    inversion H; subst st'; clear H.
+    match goal with |- context [upd_writer st (set wdflt (wr st) w ?ws') ?t ?c ?g] =>
+      pose proof (mu_upd_writer st w ws' t c g Gw) as E end.
+    unfold wm in E; rewrite Gpc in E; simpl in E. split; [lia|discriminate].
+  - (* CReadNext *)
+    grd H Gnw. grd H Gc.
+    destruct (rlist st) eqn:Erl; [|discriminate].
+    assert (Hc : cpc st = CNext \/ (cpc st = CWork /\ W = 0)).
+    { apply orb_true_iff in Gc. destruct Gc as [G|G]; [left; apply is_cpc_eq; exact G|].
+      apply andb_true_iff in G. destruct G as [G1 G2]. apply is_cpc_eq in G1. apply Nat.eqb_eq in G2. auto. }
+    assert (Hh : length (handed st) + n = next_k st + 1) by (apply (co_hwork P st Ic); tauto).
+    pose proof (co_hlen P st Ic) as HhL. pose proof (co_wlen P st Ic) as Hwl.
+    assert (Hmul : (L + n - next_k st) * (R + W + 3) = (L + n - S (next_k st)) * (R + W + 3) + (R + W + 3)).
+    { replace (L + n - next_k st) with (S (L + n - S (next_k st))) by lia. simpl. lia. }
+    assert (Hold : (L + n - next_k st) * (R + W + 3) + 3 <= cm st).
+    { unfold cm. destruct Hc as [C|[C _]]; rewrite C; lia. }
+    assert (Hsum : forall c' rl cu hd,
+       mu (mkS ((r_idx st + 1) mod n) (w_idx st) (S (next_k st)) (done st)
+                (setrow (rtask st) (r_idx st) R (sched P (pos_at P (next_k st)))) (wtask st) (map unblock (rd st))
+                (wr st) c' NotWaiting rl (wlist st) cu hd (written st) (wgot st) (bailed st)) + cm st
+       = mu st + cm (mkS ((r_idx st + 1) mod n) (w_idx st) (S (next_k st)) (done st)
+                (setrow (rtask st) (r_idx st) R (sched P (pos_at P (next_k st)))) (wtask st) (map unblock (rd st))
+                (wr st) c' NotWaiting rl (wlist st) cu hd (written st) (wgot st) (bailed st))).
+    { intros. unfold mu.
+      match goal with |- _ + sumf ?f R + sumf ?g W + _ = _ =>
+        rewrite (sumf_ext f (fun w => rm (rget st w)) R)
+          by (intros; unfold rget; cbn [rd]; rewrite get_map_unblock; apply rm_unblock);
+        change (sumf g W) with (sumf (fun w => wm (wget st w)) W) end.
+      lia. }
+    destruct (_ <? bmax P); inversion H; subst st'; clear H;
+      match goal with |- context [mkS _ _ _ _ _ _ _ _ ?c' _ ?rl _ ?cu ?hd _ _ _] => pose proof (Hsum c' rl cu hd) as E end;
+      unfold cm at 2 in E; cbn [cpc rlist wlist next_k] in E; rewrite ?seq_length in E;
+      match type of E with ?m + cm st = _ => set (mm := m) in * end;
+      set (X := (L + n - S (next_k st)) * (R + W + 3)) in *; set (Y := (L + n - next_k st) * (R + W + 3)) in *; clearbody mm X Y;
+      (split; [|intros _]; lia).
+  - (* CTaskRead *)
+    grd H Gnw. grd H Gc. apply is_cpc_eq in Gc.
+    destruct (rscan st base count) as [w'|] eqn:Es; [|discriminate].
+    destruct (Nat.eqb_spec w' w) as [->|]; [|discriminate]. inversion H; subst st'; clear H.
+    unfold rscan in Es. apply find_some in Es. destruct Es as [Hin _].
+    pose proof (without_length_lt w (rlist st) Hin) as Hlt.
+    match goal with |- context [upd_caller st ?c' ?cw ?rl ?wl ?b] => pose proof (mu_upd_caller st c' cw rl wl b) as E end.
+    unfold cm in E. cbn [cpc rlist wlist next_k upd_caller] in E. rewrite Gc in E. split; [|intros _]; lia.
+  - (* CTaskWait *)
+    grd H Gnw. grd H Gc. grd H Gex. apply is_cpc_eq in Gc.
+    destruct (rscan st base count); [discriminate|]. inversion H; subst st'; clear H.
+    match goal with |- context [upd_caller st ?c' ?cw ?rl ?wl ?b] => pose proof (mu_upd_caller st c' cw rl wl b) as E end.
+    unfold cm in E. cbn [cpc rlist wlist next_k upd_caller] in E. rewrite Gc in E. split; [lia|discriminate].
+  - (* CParityWrite *)
+    grd H Gnw. grd H Gc. apply is_cpc_eq in Gc.
+    destruct (rlist st) eqn:Erl; [|discriminate].
+    destruct (wscan st ((w_idx st + 1) mod n) (wlist st)) as [[w'|]|] eqn:Es; try discriminate.
+    destruct (Nat.eqb_spec w' w) as [->|]; [|discriminate]. inversion H; subst st'; clear H.
+    apply wscan_some in Es. destruct Es as [Hin _].
+    pose proof (without_length_lt w (wlist st) Hin) as Hlt.
+    match goal with |- context [upd_caller st ?c' ?cw ?rl ?wl ?b] => pose proof (mu_upd_caller st c' cw rl wl b) as E end.
+    unfold cm in E. cbn [cpc rlist wlist next_k upd_caller] in E. rewrite Gc, Erl in E. simpl length in E.
+    split; [|intros _]; lia.
+  - (* CParityWait *)
+    grd H Gnw. grd H Gc. apply is_cpc_eq in Gc.
+    destruct (rlist st) eqn:Erl; [|discriminate].
+    destruct (wlist st) as [|w1 wl] eqn:Ewl; [discriminate|]. rewrite <- Ewl in *.
+    destruct (wscan st ((w_idx st + 1) mod n) (wlist st)) as [[w'|]|] eqn:Es; try discriminate.
+    inversion H; subst st'; clear H.
+    match goal with |- context [upd_caller st ?c' ?cw ?rl ?wl ?b] => pose proof (mu_upd_caller st c' cw rl wl b) as E end.
+    unfold cm in E. cbn [cpc rlist wlist next_k upd_caller] in E. rewrite Gc, Erl in E. split; [lia|discriminate].
+
+
+
+
+  - (* CWriteNext *)
+    grd H Gnw. grd H Gc. grd H GW. apply is_cpc_eq in Gc.
+    destruct (rlist st) eqn:Erl; [|discriminate].
+    destruct (wlist st) as [|w1 wl] eqn:Ewl; [|discriminate].
+    grd H Gi. inversion H; subst st'; clear H.
+    unfold mu.
+    match goal with |- context [_ + sumf ?f R + sumf ?g W] =>
+      change (sumf f R) with (sumf (fun w => rm (rget st w)) R);
+      rewrite (sumf_ext g (fun w => wm (wget st w)) W)
+        by (intros; unfold wget; cbn [wr]; rewrite get_map_unblock; apply wm_unblock) end.
+    unfold cm. cbn [cpc rlist wlist next_k]. rewrite Gc, Erl, Ewl. simpl length. split; [|intros _]; lia.
+  - (* CSpur *)
+    destruct (is_not_waiting (cwait st)); [discriminate|]. inversion H; subst st'; clear H.
+    match goal with |- context [upd_caller st ?c' ?cw ?rl ?wl ?b] => pose proof (mu_upd_caller st c' cw rl wl b) as E end.
+    unfold cm in E. cbn [cpc rlist wlist next_k upd_caller] in E.
+    set (Y := (L + n - next_k st) * (R + W + 3)) in *; clearbody Y.
+    destruct (cpc st); (split; [lia|discriminate]).
+  - (* CBail *)
+    grd H Gnw. grd H Gc. inversion H; subst st'; clear H.
+    match goal with |- context [upd_caller st ?c' ?cw ?rl ?wl ?b] => pose proof (mu_upd_caller st c' cw rl wl b) as E end.
+    unfold cm in E. cbn [cpc rlist wlist next_k upd_caller] in E.
+    set (Y := (L + n - next_k st) * (R + W + 3)) in *; clearbody Y.
+    apply orb_true_iff in Gc. destruct Gc as [G|G]; apply is_cpc_eq in G; rewrite G in E; (split; [lia|discriminate]).
+  - (* CStop *)
+    grd H Gc. apply is_cpc_eq in Gc. inversion H; subst st'; clear H.
+    unfold mu.
+    match goal with |- context [_ + sumf ?f R + sumf ?g W] =>
+      rewrite (sumf_ext f (fun w => rm (rget st w)) R)
+        by (intros; unfold rget; cbn [rd]; rewrite get_map_unblock; apply rm_unblock);
+      rewrite (sumf_ext g (fun w => wm (wget st w)) W)
+        by (intros; unfold wget; cbn [wr]; rewrite get_map_unblock; apply wm_unblock) end.
+    unfold cm. cbn [cpc]. rewrite Gc. split; [|intros _]; lia.
+  - (* CJoin *)
+    grd H Gc. grd H Gr. grd H Gw. apply is_cpc_eq in Gc. inversion H; subst st'; clear H.
+    match goal with |- context [upd_caller st ?c' ?cw ?rl ?wl ?b] => pose proof (mu_upd_caller st c' cw rl wl b) as E end.
+    unfold cm in E. cbn [cpc rlist wlist next_k upd_caller] in E. rewrite Gc in E. split; [|intros _]; lia.
+Qed.
+
+(* every run makes at most mu (init P) steps that are not waits / spurious wake-ups *)
+Lemma mu_init_bound : mu (init P) <= (L + 1) * (R + W + 3) + 3 + R * (2 * (L + n) + 2) + W * (2 * L + 1).
+Proof.
+  unfold mu, cm, init. cbn [cpc next_k].
+  assert (A : forall k, sumf (fun w => rm (rget (init P) w)) k <= k * (2 * (L + n) + 2)).
+  { induction k; simpl; [lia|].
+    assert (rm (rget (init P) k) <= 2 * (L + n) + 2).
+    { unfold rm. pose proof (Nat.lt_ge_cases k R) as [Q|Q].
+      - unfold rget, init; simpl rd. rewrite get_repeat by exact Q. simpl. lia.
+      - unfold rget, init; simpl rd. unfold get. rewrite nth_overflow by (rewrite repeat_length; exact Q). simpl. lia. }
+    lia. }
+  assert (B : forall k, sumf (fun w => wm (wget (init P) w)) k <= k * (2 * L + 1)).
+  { induction k; simpl; [lia|].
+    assert (wm (wget (init P) k) <= 2 * L + 1).
+    { unfold wm. pose proof (Nat.lt_ge_cases k W) as [Q|Q].
+      - unfold wget, init; simpl wr. rewrite get_repeat by exact Q. simpl. lia.
+      - unfold wget, init; simpl wr. unfold get. rewrite nth_overflow by (rewrite repeat_length; exact Q). simpl. lia. }
+    lia. }
+  specialize (A R). specialize (B W).
+  replace (L + n - (n - 1)) with (L + 1) by lia.
+  change (sumf (fun w => rm (rget (init P) w)) R) with (sumf (fun w => rm (rget (init P) w)) R) in A.
+  unfold init in A, B. lia.
+Qed.
+
+
 End Inv.
 
 (* ---------------------------------------------------------------------------------------------- *)
@@ -357,7 +639,6 @@ Proof.
   - intros ls st' Hb H. apply n2_dead_not_final. eapply Hclosed; eauto.
   - intros ls st' l st'' Hb H Hs. eapply n2_only_waits; [|exact Hs]. eapply Hclosed; eauto.
 Qed.
-
 
 
 
